@@ -82,12 +82,14 @@ func runC12(p *Prog, r *Report) {
 	r.Rule("D1-escaped-path", "dependency names reach gjson/sjson paths only through gjson.Escape")
 	r.Rule("D3-applied-or-error", "package.json: an update is applied or Write fails")
 	r.Rule("D4-identity", "package.json: the buffer changes only inside the update loop; it is what gets written")
+	r.Rule("D6-section-bookkeeping", "pom.xml: a section is marked as handled under the origin whose patches were applied to it")
 	c12View(p, r)
 	c12Dedupe(p, r)
 	c12Diff(p, r)
 	c12Plumbing(p, r)
 	c12Unactionable(p, r)
 	c13PackageJSON(p, r)
+	c13Sections(p, r)
 }
 
 const (
@@ -163,6 +165,88 @@ func c12View(p *Prog, r *Report) {
 		}
 	}
 	r.Instances("D1-one-view", "vulnerability-list reads", n, 3)
+
+	// one options object: every filter of a vulnerability list (the original analysis and every
+	// re-analysis inside the strategies) is MatchVuln(*opts, v) on the options pointer the caller
+	// handed in, and the explicit-list expansion is stored into that same object — so the original and
+	// the patched lists are filtered alike
+	nm := 0
+	for _, fnn := range p.Funcs() {
+		if !strings.HasPrefix(fnKey(fnn), "guidedremediation/internal/") {
+			continue
+		}
+		forEachInstr(fnn, func(_ *ssa.BasicBlock, _ int, in ssa.Instruction) {
+			c, ok := in.(*ssa.Call)
+			if !ok || !refOf(c.Common()).is(fp(pkgRemediation), "", "MatchVuln") {
+				return
+			}
+			nm++
+			// arg0 = *X where X is (a captured / parameter) *RemediationOptions
+			okO := false
+			if u, isU := c.Call.Args[0].(*ssa.UnOp); isU && u.Op == token.MUL {
+				root := u.X
+				if u2, ok := root.(*ssa.UnOp); ok && u2.Op == token.MUL {
+					root = u2.X // load of the captured variable
+				}
+				switch x := root.(type) {
+				case *ssa.Parameter:
+					okO = isOptsPtr(x.Type())
+				case *ssa.FreeVar:
+					okO = isOptsPtr(x.Type()) || isOptsPtrPtr(x.Type())
+				case *ssa.Alloc:
+					// spilled parameter
+					ss := storesTo(x)
+					if len(ss) == 1 {
+						if prm, ok := ss[0].(*ssa.Parameter); ok {
+							okO = isOptsPtr(prm.Type())
+						}
+					}
+				}
+			}
+			r.Check(okO, "D1-one-view", fnKey(fnn)+":filter-options", p.Pos(c.Pos()), "MatchVuln(*opts, v) on the caller's options object", "a vulnerability list is filtered with a private copy of the options instead of the options object shared by the analysis and the strategies: the explicit-list / ignore-list expansion made for the original analysis is not applied to the patched one (or vice versa), so Fixed/Introduced are computed from differently filtered lists")
+		})
+	}
+	r.Instances("D1-one-view", "MatchVuln filter sites", nm, 3)
+	// the explicit-list expansion writes opts.IgnoreVulns of the parameter
+	if rg := p.Func(pkgRemediation, "ResolveGraphVulns"); rg != nil {
+		okS, ns := true, 0
+		for _, f := range withAnon(rg) {
+			forEachInstr(f, func(_ *ssa.BasicBlock, _ int, in ssa.Instruction) {
+				st, ok := in.(*ssa.Store)
+				if !ok {
+					return
+				}
+				if _, fld, base, ok := fieldOf(st.Addr); ok && fld == "IgnoreVulns" {
+					ns++
+					root := rootParam(base)
+					isP := false
+					for _, prm := range rg.Params {
+						if root == ssa.Value(prm) {
+							isP = true
+						}
+					}
+					if !isP {
+						okS = false
+					}
+				}
+			})
+		}
+		r.Check(okS && ns > 0, "D1-one-view", "ResolveGraphVulns:explicit-list-expansion", p.Pos(rg.Pos()), "vulnerabilities outside the explicit list are added to the shared options' ignore list", "the explicit-list expansion is not stored into the options object the strategies filter with")
+	}
+}
+
+func isOptsPtr(t types.Type) bool {
+	pt, ok := t.Underlying().(*types.Pointer)
+	if !ok {
+		return false
+	}
+	n := namedOf(pt.Elem())
+	return n != nil && n.Obj().Name() == "RemediationOptions"
+}
+
+func isOptsPtrPtr(t types.Type) bool {
+	pt, ok := t.Underlying().(*types.Pointer)
+	return ok && isOptsPtr(pt.Elem())
 }
 
 // closureFunc resolves a func-typed value to the closure/function it denotes, following a local
